@@ -96,6 +96,7 @@ const (
 	kOpenEACCES   = "open-eacces"    // file/dir: opening for reading fails with EACCES
 	kStatEACCES   = "stat-eacces"    // any: lstat fails with EACCES (entry of a directory without search permission)
 	kReaddirEACC  = "readdir-eacces" // dir: Readdirnames fails with EACCES
+	kReaddirPart  = "readdir-partial" // dir: Readdirnames returns the first half of the names AND an I/O error (what os.File.Readdirnames does on a mid-listing failure)
 	kReadEACCES   = "read-eacces"    // file: the first Read fails with EACCES
 	kReadMid      = "read-mid"       // file: Read fails with EIO after After bytes
 	kFile2Dir     = "type-file2dir"  // file replaced by a directory between lstat and open
@@ -270,6 +271,14 @@ func (w *vFaultFileC55) Readdirnames(n int) ([]string, error) {
 		w.hit()
 		return nil, vPathErrC55("readdirent", w.name, syscall.EACCES)
 	}
+	if w.f.Kind == kReaddirPart {
+		w.hit()
+		names, err := w.File.Readdirnames(n)
+		if err != nil {
+			return names, err
+		}
+		return names[:len(names)/2], vPathErrC55("readdirent", w.name, syscall.EIO)
+	}
 	return w.File.Readdirnames(n)
 }
 
@@ -334,7 +343,7 @@ type vCaseC55 struct {
 }
 
 var vKindsFileC55 = []string{kOpenEACCES, kStatEACCES, kReadEACCES, kReadMid, kFile2Dir, kFile2Link, kVanish, kVanishOpen, kVanishLate}
-var vKindsDirC55 = []string{kOpenEACCES, kStatEACCES, kReaddirEACC, kDir2File, kVanish, kVanishOpen, kVanishLate, kReaddirEACC, kOpenEACCES}
+var vKindsDirC55 = []string{kOpenEACCES, kStatEACCES, kReaddirEACC, kReaddirPart, kDir2File, kVanish, kVanishOpen, kVanishLate, kReaddirEACC, kReaddirPart, kOpenEACCES}
 var vKindsLinkC55 = []string{kStatEACCES, kVanish, kVanishOpen}
 
 func vIsVanishC55(k string) bool { return k == kVanish || k == kVanishOpen }
